@@ -141,6 +141,9 @@ def run(ctx):
     verilog_emitters(ctx)
     fam = designs.family(ctx.tier, ctx.seed) + [{'name': 'odd_names', 'params': {'w': 3}}] + \
         [d for d in designs.wide_family(ctx.tier) if d['params'].get('w', 0) in (1, 33, 65) or d['name'] != 'wide_ops']
+    # designs exported once, then extended in the same block, then exported again
+    fam += [{'name': 'extended_after_export', 'params': {'base': b, 'params': p}} for b, p in
+            (('counter', {'w': 3}), ('mixed_alu', {'w': 3}), ('mem_rw', {}), ('rom_list', {}), ('binop', {'op': '-', 'wa': 3, 'wb': 2}))]
     tasks = [(d, ar) for d in fam for ar in (True, False, 'asynchronous')]
     res = passcheck.pmap(_module, tasks)
     cnt = {}
